@@ -14,7 +14,8 @@
      Pipeline.update_defaults / PipeFunc.update_bound / Pipeline.replace
                                                  -> upd_defaults / upd_bound / replace_func; every mutation ends in
                                                     Pipeline._clear_internal_cache which clears the cache (fix 3)
-     _get_or_set_cache (map path)                -> get_or_set (keyed by the function's own kwargs)
+     _get_or_set_cache (map path)                -> get_or_set (keyed by the function's own kwargs; one atomic read,
+                                                    fix 4), get_or_set_legacy (membership test, then read)
      SimpleCache / LRUCache(shared=False)        -> simple_policy / lru_policy (own small models; the container
                                                     classes themselves are C14's subject)
    The ORIGINAL (unrepaired) behaviour is kept as `legacy` variant (flag) so that the refutation witnesses of the
@@ -130,7 +131,8 @@ Definition none_val : str := s "None".           (* canon(None) *)
 (* ---------- what the theorems need to know about Pipeline.root_args (Pipe.root_args mirrors _compute_arg_mapping;
    its characterisation is C02's subject): the reported tuple consists of non-outputs and contains every name that
    the evaluation of the output reads from the keywords / defaults, i.e. every unbound non-output parameter of a
-   function reachable from it through unbound parameters.  Decidable, checked on every generated case. ---------- *)
+   function reachable from it through unbound parameters.  Decidable; PROVED for every well-formed pipeline in
+   Proofs/RootArgsFacts.v (roots_okb_of_wf), so it is no side condition of the final theorems. ---------- *)
 Fixpoint reads_ok (fuel : nat) (p : pipeline) (ra : list str) (o : str) {struct fuel} : bool :=
   match fuel with
   | O => true
@@ -379,10 +381,28 @@ Section WithBody.
      names).  Returns the value, the new cache and whether the user function was executed. *)
   Definition call_args (f : pfunc) (kwargs : alist) : alist :=
     flat_map (fun po => match aget kwargs (fst po) with Some v => [(snd po, v)] | None => [] end) (params f).
+  Definition map_key (f : pfunc) (kwargs : alist) : ckey := KMap (outs f) (sort_by_key kwargs).
+  (* REPAIRED code (fix "map: read a cached result with a single cache.get"): ONE read - results are stored as
+     1-tuples, so None means absent - then, on a miss, the user function and one put.  The read and the put are the
+     two atomic cache operations of an invocation (LRUCache/HybridCache.get/put hold the cache lock). *)
+  Definition gos_read (f : pfunc) (kwargs : alist) (c : C) : option str * C := cget P c (map_key f kwargs).
+  Definition gos_write (f : pfunc) (kwargs : alist) (c : C) (r : str) : C := cput P c (map_key f kwargs) r.
   Definition get_or_set (f : pfunc) (kwargs : alist) (c : C) : result str * C * bool :=
-    let k := KMap (outs f) (sort_by_key kwargs) in
+    let '(ov, c1) := gos_read f kwargs c in
+    match ov with
+    | Some r => (Ok r, c1, false)
+    | None =>
+        match body (fname f) (call_args f kwargs) with
+        | Err e => (Err e, c1, true)
+        | Ok r => (Ok r, gos_write f kwargs c1 r, true)
+        end
+    end.
+  (* the code AS FOUND: `if key in cache: return cache.get(key)`.  `interfere` is what the other clients of a shared
+     cache do between the membership test and the read; an absent key reads as Python's None. *)
+  Definition get_or_set_legacy (interfere : C -> C) (f : pfunc) (kwargs : alist) (c : C) : result str * C * bool :=
+    let k := map_key f kwargs in
     if cmem P c k then
-      let '(ov, c1) := cget P c k in
+      let '(ov, c1) := cget P (interfere c) k in
       (match ov with Some r => Ok r | None => Ok none_val end, c1, false)
     else
       match body (fname f) (call_args f kwargs) with
